@@ -40,7 +40,7 @@ def replay(rec: Dict[str, Any]) -> List[Tuple[str, Dict[str, Any], str]]:
         doc = untag(rec["doc"])
         disc = ""
         got: Any = None
-        for compiled in (False, True, "foreign"):
+        for compiled in (False, True, "foreign", "leading-dot"):
             try:
                 if not compiled:
                     # another environment with other decoding options selects with the same expression texts first:
@@ -57,6 +57,17 @@ def replay(rec: Dict[str, Any]) -> List[Tuple[str, Dict[str, Any], str]]:
 
                     fenv = Foreign(unicode_escape=False) if not any("\\" in r for r in rels) else Foreign()
                     args = [fenv.compile("\u20ac" + r[1:] if r.startswith("$") else r) for r in rels]
+                elif compiled == "leading-dot":
+                    # a relative query is what follows the root identifier: written with its leading dot (".x" for "x") it is the same
+                    # child segment - where such a text is accepted at all (refusing it is no concern of this property)
+                    args = ["." + r if (r[:1].isalpha() or r[:1] == "_" or not r[:1].isascii()) else r for r in rels]
+                    if args == rels:
+                        continue
+                    try:
+                        for a in args:
+                            jsonpath.compile(a)
+                    except jsonpath.JSONPathError:
+                        continue
                 else:
                     args = [jsonpath.compile(r) for r in rels] if compiled else rels
                 qobj = jsonpath.query(mq, doc)
